@@ -40,7 +40,7 @@ theorem default_rowOk : RowOkT (default : Row) := by
   unfold RowOkT
   refine ⟨?_, ?_, ?_, ?_, ?_⟩ <;> decide
 
-theorem rowAt_ok {rows : List Row} (h : RowsOk rows) (i : Nat) : RowOkT (rowAt rows i) := by
+theorem tc_rowAt_ok {rows : List Row} (h : RowsOk rows) (i : Nat) : RowOkT (rowAt rows i) := by
   unfold rowAt
   by_cases hi : i < rows.length
   · have : rows.getD i default = rows[i] := by simp [List.getD, hi]
@@ -65,12 +65,12 @@ theorem freeOk_append {a b : List Int} (ha : FreeOk a) (hb : FreeOk b) : FreeOk 
   · exact ha f h
   · exact hb f h
 
-theorem iabs_eq (v : Int) : iabs v = (v.natAbs : Int) := by
+theorem tc_iabs_eq (v : Int) : iabs v = (v.natAbs : Int) := by
   unfold iabs; split <;> omega
 
 theorem absI32_ok {s : String} {v : Int} (h1 : -2147483647 ≤ v) (h2 : v ≤ 2147483647) :
     absI32 s v = .ok (iabs v) := by
-  rw [iabs_eq]; exact chk32_ok' (by omega) (by omega)
+  rw [tc_iabs_eq]; exact chk32_ok' (by omega) (by omega)
 
 theorem subI32_ok {s : String} {a b : Int} (h1 : -2147483648 ≤ a - b) (h2 : a - b ≤ 2147483647) :
     subI32 s a b = .ok (a - b) := chk32_ok' h1 h2
@@ -84,8 +84,8 @@ theorem addI32_ok {s : String} {a b : Int} (h1 : -2147483648 ≤ a + b) (h2 : a 
 
 theorem closestRowC_ok {rows : List Row} (h : RowsOk rows) {y : Int} (hy1 : -T29 ≤ y) (hy2 : y ≤ T29) :
     closestRowC rows y = .ok (closestRow rows y) := by
-  have h1 := rowAt_ok h (lowerBound rows y)
-  have h2 := rowAt_ok h (lowerBound rows y - 1)
+  have h1 := tc_rowAt_ok h (lowerBound rows y)
+  have h2 := tc_rowAt_ok h (lowerBound rows y - 1)
   obtain ⟨_, _, _, a1, a2⟩ := h1
   obtain ⟨_, _, _, b1, b2⟩ := h2
   have e1 : subI32 "closestRow: rows_[row].minY - y" (rowAt rows (lowerBound rows y)).rect.minY y =
@@ -153,7 +153,7 @@ theorem crossIvs_ok {w : Int} {a b : List (Int × Int)} (ha : ∀ iv ∈ a, IvOk
   rcases List.mem_filterMap.mp hm with ⟨i2, hi2, hmeet⟩
   exact meetIv_ok (ha i1 hi1) (hb i2 hi2) hmeet
 
-theorem startRow_eq (rows : List Row) (y : Int) : startRow rows y = (closestRow rows y).toNat := rfl
+theorem tc_startRow_eq (rows : List Row) (y : Int) : startRow rows y = (closestRow rows y).toNat := rfl
 
 theorem possibleIvsC_ok {rows : List Row} {rowH : Int} {free : List Int} {w : Int} (hr : RowsOk rows)
     (hf : FreeOk free) (hH1 : 1 ≤ rowH) (hH2 : rowH ≤ 2 * M22) (hw0 : 0 ≤ w) (hw : w ≤ M22) :
@@ -169,7 +169,7 @@ theorem possibleIvsC_ok {rows : List Row} {rowH : Int} {free : List Int} {w : In
     have el := levelIvsC_ok (y := y) hw0 hw (rows.drop (closestRow rows y).toNat) (free.drop (closestRow rows y).toNat)
       (rowsOk_drop hr _) (freeOk_drop hf _)
     unfold possibleIvsC possibleIvs
-    simp only [ec, andThen_ok, el.1, startRow_eq]
+    simp only [ec, andThen_ok, el.1, tc_startRow_eq]
     by_cases hc : (h ≤ rowH || (levelIvs w y (rows.drop (closestRow rows y).toNat) (free.drop (closestRow rows y).toNat)).isEmpty) = true
     · simp only [hc, if_true, true_and]
       exact el.2
@@ -186,7 +186,7 @@ theorem possibleIvsC_ok {rows : List Row} {rowH : Int} {free : List Int} {w : In
 /-- a found position: the cell `[d, d + w]` lies within ±2^22 -/
 def AccOk (w : Int) (acc : Option Int) : Prop := ∀ d, acc = some d → -M22 ≤ d ∧ d + w ≤ M22
 
-theorem clamp_mem {x b e : Int} (h : b ≤ e) : b ≤ clamp x b e ∧ clamp x b e ≤ e := by
+theorem tc_clamp_mem {x b e : Int} (h : b ≤ e) : b ≤ clamp x b e ∧ clamp x b e ≤ e := by
   unfold clamp; split
   · omega
   · split <;> omega
@@ -195,7 +195,7 @@ theorem closestStepC_ok {x w : Int} {acc : Option Int} {iv : Int × Int} (hx1 : 
     (hw0 : 0 ≤ w) (hiv : IvOk w iv) (hacc : AccOk w acc) :
     closestStepC x acc iv = .ok (closestStep x acc iv) ∧ AccOk w (closestStep x acc iv) := by
   obtain ⟨i1, i2, i3⟩ := hiv
-  have hc := clamp_mem (x := x) i2
+  have hc := tc_clamp_mem (x := x) i2
   cases acc with
   | none =>
     refine ⟨rfl, ?_⟩
@@ -274,7 +274,7 @@ theorem attemptSegsC_ok {rows : List Row} {c : LCell} {y : Int} {ivs : List (Int
 
 theorem accOk_none (w : Int) : AccOk w none := by intro d hd; cases hd
 
-theorem attempt_eq (t : Tetris) (c : LCell) (y : Int) : attempt t c y = attemptPerSeg t c y := by
+theorem tc_attempt_eq (t : Tetris) (c : LCell) (y : Int) : attempt t c y = attemptPerSeg t c y := by
   simp [attempt, tetrisPerSegmentOrientation]
 
 theorem attemptC_ok {t : Tetris} (hd : TDom t) {c : LCell} (hc : CellOkT c) {y : Int} (hy1 : -M22 ≤ y) (hy2 : y ≤ M22) :
@@ -284,9 +284,9 @@ theorem attemptC_ok {t : Tetris} (hd : TDom t) {c : LCell} (hc : CellOkT c) {y :
   have ep := possibleIvsC_ok hd.rows hd.free hd.rowH1 hd.rowH2 c1 c2 (c.h.toNat + 1) c.h y hy1 (by omega) (by omega) c3
   have hs := attemptSegsC_ok (rows := t.rows) (c := c) (y := y) ep.1 ep.2 c4 c5 c1 c2
     (t.rows.drop (closestRow t.rows y).toNat) (closestRow t.rows y).toNat none (accOk_none _)
-  rw [attempt_eq]
+  rw [tc_attempt_eq]
   unfold attemptC attemptPerSeg
-  simp only [ec, andThen_ok, startRow_eq]
+  simp only [ec, andThen_ok, tc_startRow_eq]
   exact hs
 
 /-! ### placeCell -/
@@ -300,7 +300,7 @@ theorem distC_ok {c : LCell} (hc : CellOkT c) {x y : Int} (hx1 : -M22 ≤ x) (hx
   have e4 : absI32 "placeCell: std::abs(targetY - y)" (c.ty - y) = .ok (iabs (c.ty - y)) := absI32_ok (by omega) (by omega)
   have e5 : addI32 "placeCell: std::abs(…) + std::abs(…)" (iabs (c.tx - x)) (iabs (c.ty - y)) =
       .ok (iabs (c.tx - x) + iabs (c.ty - y)) := by
-    rw [iabs_eq, iabs_eq]; exact addI32_ok (by omega) (by omega)
+    rw [tc_iabs_eq, tc_iabs_eq]; exact addI32_ok (by omega) (by omega)
   simp only [distC, e1, e2, e3, e4, e5, andThen_ok]
 
 /-- the best candidate so far lies within ±2^22 -/
@@ -310,7 +310,7 @@ def BestOk (w : Int) (b : Option Best) : Prop :=
 theorem tetrisTryC_ok {t : Tetris} (hd : TDom t) {c : LCell} (hc : CellOkT c) (row : Nat) {b : Option Best}
     (hb : BestOk c.w b) :
     tetrisTryC t c row b = .ok (tetrisTry t c row b) ∧ BestOk c.w (tetrisTry t c row b).1 := by
-  have hr := rowAt_ok hd.rows row
+  have hr := tc_rowAt_ok hd.rows row
   obtain ⟨_, _, _, y1, y2⟩ := hr
   have ha := attemptC_ok hd hc y1 y2
   have hc' := hc
@@ -468,7 +468,7 @@ theorem instanciateC_ok {rows : List Row} {rowH x w : Int} (hr : RowsOk rows) (h
       have hnew : FreeOk (free.take (closestRow rows y).toNat ++
           markLevel x w y (rows.drop (closestRow rows y).toNat) (free.drop (closestRow rows y).toNat)) :=
         freeOk_append (freeOk_take hf _) em.2
-      simp only [h0, Bool.false_eq_true, if_false, ec, andThen_ok, em.1, startRow_eq]
+      simp only [h0, Bool.false_eq_true, if_false, ec, andThen_ok, em.1, tc_startRow_eq]
       simp only [Bool.or_eq_true, decide_eq_true_eq, not_or] at h0
       by_cases hle : h ≤ rowH
       · simp only [hle, if_true]; exact ⟨trivial, hnew⟩
@@ -481,7 +481,7 @@ theorem instanciateC_ok {rows : List Row} {rowH x w : Int} (hr : RowsOk rows) (h
 
 theorem bestOk_none (w : Int) : BestOk w none := by intro b hb; cases hb
 
-theorem orientRow_eq (rows : List Row) (x y : Int) :
+theorem tc_orientRow_eq (rows : List Row) (x y : Int) :
     orientRow rows x y = segOf x y (closestRow rows y).toNat (rows.drop ((closestRow rows y).toNat + 1)) := by
   simp [orientRow, tetrisPerSegmentOrientation, startRow]
 
@@ -497,7 +497,7 @@ theorem tetrisPlaceC_ok {t : Tetris} (hd : TDom t) {c : LCell} (hc : CellOkT c) 
   have hs := searchRowsC_ok (BestOk c.w) (tetrisTry t c) (tetrisTryC t c)
     (fun r s hs => tetrisTryC_ok hd hc' r hs) t.rows.length (closestRow t.rows c.ty).toNat none (bestOk_none _)
   unfold tetrisPlaceC tetrisPlace
-  simp only [hne, Bool.false_eq_true, if_false, ec, andThen_ok, hs.1, startRow_eq]
+  simp only [hne, Bool.false_eq_true, if_false, ec, andThen_ok, hs.1, tc_startRow_eq]
   cases hres : searchRows (tetrisTry t c) t.rows.length (closestRow t.rows c.ty).toNat none with
   | none => exact ⟨rfl, hd⟩
   | some b =>
@@ -506,7 +506,7 @@ theorem tetrisPlaceC_ok {t : Tetris} (hd : TDom t) {c : LCell} (hc : CellOkT c) 
     have ecb := closestRowC_ok hd.rows (y := b.y) (by omega) (by omega)
     have ei := instanciateC_ok (rows := t.rows) (rowH := t.rowH) (x := b.x) (w := c.w) hd.rows hd.rowH1 hd.rowH2 b1 c1 b2
       (c.h.toNat + 1) b.y c.h t.free hd.free b3 (by omega) (by omega) c3
-    simp only [ecb, andThen_ok, ei.1, orientRow_eq]
+    simp only [ecb, andThen_ok, ei.1, tc_orientRow_eq]
     exact ⟨trivial, ⟨hd.rows, ei.2, hd.rowH1, hd.rowH2, hd.nonempty⟩⟩
 
 theorem tetrisRunC_ok : ∀ (cells : List LCell) (t : Tetris), TDom t → (∀ c ∈ cells, CellOkT c) →
@@ -523,7 +523,7 @@ theorem tetrisRunC_ok : ∀ (cells : List LCell) (t : Tetris), TDom t → (∀ c
 
 /-! ### constructor -/
 
-theorem mem_insertRow {x y : Row} : ∀ {l : List Row}, y ∈ insertRow x l → y = x ∨ y ∈ l := by
+theorem tc_mem_insertRow {x y : Row} : ∀ {l : List Row}, y ∈ insertRow x l → y = x ∨ y ∈ l := by
   intro l
   induction l with
   | nil => intro h; simp [insertRow] at h; exact Or.inl h
@@ -540,36 +540,36 @@ theorem mem_insertRow {x y : Row} : ∀ {l : List Row}, y ∈ insertRow x l → 
       · exact Or.inl h1
       · exact Or.inr h1
 
-theorem mem_sortRows {y : Row} : ∀ {l : List Row}, y ∈ sortRows l → y ∈ l := by
+theorem tc_mem_sortRows {y : Row} : ∀ {l : List Row}, y ∈ sortRows l → y ∈ l := by
   intro l
   induction l with
   | nil => intro h; simp [sortRows] at h
   | cons x xs ih =>
     intro h
     have h' : y ∈ insertRow x (sortRows xs) := by simpa [sortRows] using h
-    rcases mem_insertRow h' with h1 | h1
+    rcases tc_mem_insertRow h' with h1 | h1
     · simp [h1]
     · simp [ih h1]
 
-theorem insertRow_ne_nil (x : Row) (l : List Row) : insertRow x l ≠ [] := by
+theorem tc_insertRow_ne_nil (x : Row) (l : List Row) : insertRow x l ≠ [] := by
   cases l with
   | nil => simp [insertRow]
   | cons z zs => unfold insertRow; split <;> simp
 
-theorem sortRows_ne_nil {l : List Row} (h : l ≠ []) : sortRows l ≠ [] := by
+theorem tc_sortRows_ne_nil {l : List Row} (h : l ≠ []) : sortRows l ≠ [] := by
   cases l with
   | nil => exact absurd rfl h
   | cons x xs =>
     have : sortRows (x :: xs) = insertRow x (sortRows xs) := by simp [sortRows]
-    rw [this]; exact insertRow_ne_nil _ _
+    rw [this]; exact tc_insertRow_ne_nil _ _
 
 /-- a row of the domain, with its top: all four coordinates within ±2^22, positive height -/
 def RowOkFull (r : Row) : Prop := RowOkT r ∧ 1 ≤ r.rect.maxY - r.rect.minY ∧ r.rect.maxY ≤ M22
 
 theorem initC_ok {rows : List Row} (hne : rows ≠ []) (hr : ∀ r ∈ rows, RowOkFull r) :
     Tetris.initC rows = .ok (Tetris.init rows) ∧ TDom (Tetris.init rows) := by
-  have hs : ∀ r ∈ sortRows rows, RowOkFull r := fun r h => hr r (mem_sortRows h)
-  have hsne := sortRows_ne_nil hne
+  have hs : ∀ r ∈ sortRows rows, RowOkFull r := fun r h => hr r (tc_mem_sortRows h)
+  have hsne := tc_sortRows_ne_nil hne
   cases hsr : sortRows rows with
   | nil => exact absurd hsr hsne
   | cons r0 rest =>
